@@ -1625,6 +1625,13 @@ void EvalStrExpression(tStrComp const* pExpr, TempResult* pErg) {
                 && (!(pFunction->ArgTypes[z1] & (1 << TempInt)))) {
                 TempResultToFloat(&InVals[z1]);
             }
+            /* integer expected, (multi) character constant given: convert on the fly */
+            if ((InVals[z1].Typ == TempString)
+                && !(pFunction->ArgTypes[z1] & (1 << TempString))
+                && (pFunction->ArgTypes[z1] & (1 << TempInt))
+                && (NonZString2Int(&InVals[z1].Contents.str) >= 0)) {
+                TempResultToInt(&InVals[z1]);
+            }
             if (!(pFunction->ArgTypes[z1] & (1 << InVals[z1].Typ))) {
                 WrStrErrorPos(
                         DeduceExpectTypeErrMsgMask(
